@@ -5,6 +5,7 @@ import (
 	"fmt"
 	"maps"
 	"reflect"
+	"slices"
 	"sort"
 	"strings"
 )
@@ -613,6 +614,101 @@ func (o *ObjectSchema) applySubObjectDefaultValues(
 	}
 }
 
+// appliedDefault names a default value: the one of a property of an object.
+type appliedDefault struct {
+	object     Object
+	propertyID string
+}
+
+// containsTypes is implemented by the types that hold another type: contained hands out the type that the items of a
+// value of this type - the items of a list, the values of a map - belong to.
+type containsTypes interface {
+	contained() Type
+}
+
+// selectsMember is implemented by the one-of types: memberOf hands out the member that the fields select.
+type selectsMember interface {
+	memberOf(fields map[string]any) (Object, bool)
+}
+
+// defaultAppliesItself tells whether unserializing the default value of the property comes to a place where that same
+// default value applies: an object below it (a reference back to this object, say) that leaves the property unset
+// again. Applying it would never end.
+func (o *ObjectSchema) defaultAppliesItself(propertyID string, property *PropertySchema, defaultValue any) bool {
+	target := appliedDefault{o, propertyID}
+	return defaultApplies(property.Type(), defaultValue, target, []appliedDefault{target})
+}
+
+// defaultApplies walks the value along the type the way Unserialize does, through the default values that apply where
+// the value leaves a property out. The path lists the default values the walk has come through.
+func defaultApplies(t Type, value any, target appliedDefault, path []appliedDefault) bool {
+	if container, isContainer := t.(containsTypes); isContainer {
+		switch items := value.(type) {
+		case []any:
+			for _, item := range items {
+				if defaultApplies(container.contained(), item, target, path) {
+					return true
+				}
+			}
+		case map[string]any:
+			for _, item := range items {
+				if defaultApplies(container.contained(), item, target, path) {
+					return true
+				}
+			}
+		}
+		return false
+	}
+	if oneOf, isOneOf := t.(selectsMember); isOneOf {
+		// The value is what the member it selects makes of it.
+		fields, isMap := value.(map[string]any)
+		if !isMap {
+			return false
+		}
+		member, found := oneOf.memberOf(fields)
+		if !found {
+			return false
+		}
+		t = member
+	}
+	if ref, isRef := t.(Ref); isRef && !ref.ObjectReady() {
+		return false
+	}
+	object, isObject := ConvertToObjectSchema(t)
+	if !isObject {
+		return false
+	}
+	fields, isMap := value.(map[string]any)
+	if !isMap {
+		return false
+	}
+	defaults := object.GetDefaults()
+	for propertyID, property := range object.Properties() {
+		if field, isSet := fields[propertyID]; isSet {
+			if defaultApplies(property.Type(), field, target, path) {
+				return true
+			}
+			continue
+		}
+		propertyDefault, hasDefault := defaults[propertyID]
+		if !hasDefault {
+			continue
+		}
+		applied := appliedDefault{object, propertyID}
+		if applied == target {
+			return true
+		}
+		if slices.Contains(path, applied) {
+			// Another default value that applies itself: it is reported where it applies first.
+			continue
+		}
+		if defaultApplies(property.Type(), propertyDefault, target, append(path[:len(path):len(path)], applied)) {
+			return true
+		}
+	}
+	return false
+}
+
 func (o *ObjectSchema) convertData(v reflect.Value) (map[string]any, error) {
 	rawData := make(map[string]any, v.Len())
 	for _, key := range v.MapKeys() {
@@ -625,14 +721,21 @@ func (o *ObjectSchema) convertData(v reflect.Value) (map[string]any, error) {
 		}
 		rawData[stringKey] = v.MapIndex(key).Interface()
 	}
-	for propertyID := range o.PropertiesValue {
+	for propertyID, property := range o.PropertiesValue {
 		_, isSet := rawData[propertyID]
 		if !isSet {
 			if defaultValue, ok := o.GetDefaults()[propertyID]; ok {
+				if o.defaultAppliesItself(propertyID, property, defaultValue) {
+					return nil, &ConstraintError{
+						Message: "The default value of this property contains an object in which this default value " +
+							"applies again: the schema has no finite value here",
+						Path: []string{propertyID},
+					}
+				}
 				rawData[propertyID] = defaultValue
 			}
 			if o.fieldCache != nil {
-				o.applySubObjectDefaultValues(propertyID, o.PropertiesValue[propertyID], rawData)
+				o.applySubObjectDefaultValues(propertyID, property, rawData)
 			}
 		}
 	}
